@@ -15,6 +15,7 @@ TRun == /\ l = 1 /\ l' = 2 /\ UNCHANGED tid
         /\ Run
         /\ (Ev.exit = 0) = (exit' = 0)                      \* exit status 0 exactly when the operation succeeded
         /\ (exit' = 0 => Ev.effect_ok)                      \* and then it did what the library does
+        /\ ("untouched" \in DOMAIN Ev /\ exit' # 0 => Ev.untouched)    \* 'a' that fails leaves the archive it was given as it was
 TSpec == TInit /\ [][TRun]_tvars
 Done == /\ (l = 2) => PrintT(<<"ACC", tid>>)
         /\ Explain => PrintT(<<"AT", tid, l>>)
